@@ -1,11 +1,11 @@
 package main
 
 import (
-	"io/fs"
 	"bytes"
 	"encoding/json"
 	"fmt"
 	"io"
+	"io/fs"
 	"os"
 	"path/filepath"
 	"runtime/debug"
@@ -293,11 +293,11 @@ type Store struct {
 	Opens  []int     // sequence numbers of write-opens
 	Commit []cid.Cid // every successful commit in order
 	// faults
-	Unavailable map[string]uint64       // cid key -> error kind
-	ReadHook    func(c cid.Cid) error   // optional
-	FailOpenAt  int                     // k-th (1-based) write-open fails; 0 = never
-	FailCommit  int                     // k-th (1-based) commit fails; 0 = never
-	FailFlavor  int                     // 0: FaultErr; 1: *fs.PathError{ENOENT}; 2: fmt.Errorf("%w", fs.ErrNotExist) — what a file-system block store returns
+	Unavailable map[string]uint64     // cid key -> error kind
+	ReadHook    func(c cid.Cid) error // optional
+	FailOpenAt  int                   // k-th (1-based) write-open fails; 0 = never
+	FailCommit  int                   // k-th (1-based) commit fails; 0 = never
+	FailFlavor  int                   // 0: FaultErr; 1: *fs.PathError{ENOENT}; 2: fmt.Errorf("%w", fs.ErrNotExist) — what a file-system block store returns
 	nOpen       int
 	nCommit     int
 	Events      []string // "open", "commit:<cid>", "failopen", "failcommit:<cid>"
